@@ -490,6 +490,47 @@ fn main() {
             rep.violation("histogram-large-sample-not-counted-once", format!("sample {v} gave {n} occurrences"), json!({"sample": format!("{v}")}));
         }
     }
+    // two readouts of one recorder overlapping in time (the periodic reporter and an on-demand
+    // readout): fixed scenario with real threads, repeated; after all updates have finished two
+    // threads read out at the same moment (barrier) - whatever the overlap, both readouts
+    // together report every increment and every sample exactly once. Directed, not a schedule
+    // exploration (the `histogram` crate's atomics are outside the scheduler's view, section 3.3).
+    let overlap_rounds: u64 = rep.tier.pick(150, 1500);
+    for round in 0..overlap_rounds {
+        let rec: Rec = MetricRecorder::new();
+        let keys: Vec<(Key, Key)> = (0..8).map(|i| (Key::from_name(format!("oc{i}")), Key::from_name(format!("oh{i}")))).collect();
+        for (i, (kc, kh)) in keys.iter().enumerate() {
+            rec.register_counter(kc, &md()).increment(i as u64 + 1);
+            let h = rec.register_histogram(kh, &md());
+            for s in 0..(i as u64 + 2) {
+                h.record((10 * (i as u64 + 1) + 100 * s) as f64);
+            }
+        }
+        let barrier = std::sync::Arc::new(std::sync::Barrier::new(2));
+        let readers: Vec<_> = (0..2)
+            .map(|_| {
+                let (rec, barrier) = (rec.clone(), barrier.clone());
+                std::thread::spawn(move || {
+                    barrier.wait();
+                    read(&rec.readout()).items
+                })
+            })
+            .collect();
+        let items: Vec<Item> = readers.into_iter().flat_map(|t| t.join().unwrap()).collect();
+        for (i, _) in keys.iter().enumerate() {
+            let c: u64 = items.iter().filter(|it| it.name == format!("oc{i}")).flat_map(|it| it.obs.iter()).map(|o| match o { Observation::Unsigned(v) => *v, _ => 0 }).sum();
+            let n: u64 = items.iter().filter(|it| it.name == format!("oh{i}")).flat_map(|it| it.obs.iter()).map(|o| match o { Observation::Repeated { occurrences, .. } => *occurrences, _ => 1 }).sum();
+            if c != i as u64 + 1 || n != i as u64 + 2 {
+                rep.violation(
+                    "overlapping-readouts:not-exactly-once",
+                    format!("round {round}: two readouts at the same moment together report {c} increments of oc{i} (incremented {}) and {n} samples of oh{i} (recorded {})", i + 1, i + 2),
+                    json!({"round": round, "key_index": i, "counter_reported": c, "samples_reported": n}),
+                );
+                break;
+            }
+        }
+    }
+    rep.set("overlapping_readout_rounds", overlap_rounds);
     let (mut h_, mut t, mut r) = (0, 0, 0);
     let mut shapes = BTreeSet::new();
     for s in states {
